@@ -19,6 +19,8 @@ Line-protocol driver for C09. Ops (see harness/cmd/c09/main.go for the Go side):
   mu <hex>               UnMarshalMember           -> err | ok <id> <pubkey>
   jt <time>              json.Marshal(time)        -> err | <hex>
   jr <hex>               RequestIds JSON decode    -> <reqids>
+  jq <hex>               json.Marshal(string)      -> <hex>
+  ju <hex>               json.Unmarshal into a string (input starts with a quote) -> err | ok <hex>
 
 `tuc`/`suc`/`buc`: the bytes were produced by the implementation's own Marshal, so the
 SubTransactions JSON is canonical; on `tu`/`su`/`bu` a non-trivial SubTransactions field is
@@ -85,7 +87,8 @@ def pReqIds (s : String) : Option ReqIds :=
   if s == "n" then some .nil
   else do
     let kvs ← pList pKV s
-    some (.map (kvs.foldl (fun acc kv => insertKV kv.1 kv.2 acc) []))
+    let m := kvs.foldl (fun acc kv => insertKV kv.1 kv.2 acc) []
+    if m.all (fun kv => kv.1.all safeKeyByte) then some (.map m) else some (.mapEsc m)
 
 def pHeader : List String → Option (Header × List String)
   | hash :: height :: preHash :: preTime :: pv :: qn :: curTime :: castor :: gid :: sig :: nonce :: rids ::
@@ -154,6 +157,7 @@ def sOptList {α : Type} (f : α → String) : Option (List α) → String
 def sReqIds : ReqIds → String
   | .nil => "n"
   | .map kvs => sList (fun kv => toHex kv.1 ++ "=" ++ toString kv.2) kvs
+  | .mapEsc kvs => sList (fun kv => toHex kv.1 ++ "=" ++ toString kv.2) kvs
   | .opaque _ => "o"
 
 def sHeader (h : Header) : String :=
@@ -185,6 +189,7 @@ def sGroup (g : Group) : String :=
 def keysSafe : ReqIds → Bool
   | .nil => true
   | .map kvs => kvs.all (fun kv => kv.1.all safeKeyByte)
+  | .mapEsc _ => true
   | .opaque _ => false
 
 def headerModelled (h : Header) : Bool := keysSafe h.requestIds
@@ -301,6 +306,13 @@ def step (_ : Unit) (line : String) : Unit × String :=
          else if op == "gu" then
            showOutcome (fun g => sGroup g ++ " " ++ toHex (groupHeaderGenHash g.header)) (unmarshalGroup bs)
          else if op == "jr" then sReqIds (decReqIds bs)
+         else if op == "jq" then toHex (jsonQuote bs)
+         else if op == "ju" then
+           (match bs with
+            | 34 :: r => (match unquoteStr (r.length + 1) r with
+              | some (s, []) => "ok " ++ toHex s
+              | _ => "err")
+            | _ => "err")
          else "bad-op")
     | _ => "bad-op"
   ((), ans)
